@@ -1,4 +1,7 @@
 mod c07;
+mod hist;
+mod lsp;
+mod proj;
 
 fn main() {
     let args: Vec<String> = std::env::args().skip(1).collect();
